@@ -286,6 +286,15 @@ if __name__ == "__main__":
         print(len(ms))
         for m in ms[:: max(1, len(ms) // 40)]:
             print(m["file"], m["line"], m["op"], "|", m["old"].strip()[:70], "=>", m["new"].strip()[:70])
+    elif cmd == "retest":
+        # forget the recorded results of the given mutants and run them again (after a check was strengthened)
+        doc = load()
+        for m in doc["mutants"]:
+            if m["id"] in sys.argv[2:]:
+                if "checks" in m:
+                    m.setdefault("earlier", []).append(m.pop("checks"))
+        save(doc)
+        phase2(10 ** 6)
     elif cmd == "run":
         phase2(int(sys.argv[2]) if len(sys.argv) > 2 else 10 ** 6)
     else:
